@@ -322,12 +322,16 @@ def container(op1: int, op2: int, k1: str, k2: str, i1: int, i2: int, n0: str, n
 
 
 # ================================================================================ overloads / properties
-DK = ["plain", "overload", "property", "setter", "deleter"]
+DK = ["plain", "overload", "property", "setter", "deleter", "overload+staticmethod", "deco+overload"]
 
 
 def _deco(kind, name, line=1):
     if kind == "plain":
         return []
+    if kind == "overload+staticmethod":  # @typing.overload stacked above another decorator
+        return _deco("overload", name, line) + [_loc(ast.Name(id="staticmethod", ctx=ast.Load()), line)]
+    if kind == "deco+overload":  # another decorator stacked above @typing.overload
+        return [_loc(ast.Name(id="some_decorator", ctx=ast.Load()), line)] + _deco("overload", name, line)
     if kind == "overload":
         return [_loc(ast.Attribute(value=_loc(ast.Name(id="typing", ctx=ast.Load()), line), attr="overload", ctx=ast.Load()), line)]
     if kind == "property":
@@ -363,7 +367,7 @@ def overloads_properties(d1: str, d2: str, d3: str, n1: str, n2: str, n3: str, t
     members, pending = {}, {}
     for i, (dk, nm, tgt) in enumerate(defs):
         line = 10 * i + 1
-        if dk == "overload":
+        if "overload" in dk:
             pending.setdefault(nm, []).append(line)
         elif dk == "property":
             members[nm] = dict(kind="attribute", line=line, labels={"property"}, setter=None, deleter=None)
